@@ -24,7 +24,7 @@ def tagged_newtype_programs(ctx):
             XE["variants"][0]["attrs"]["rename"] = "a("          # an opening parenthesis in the FIRST operand of `(..) & (..)`
             IE["variants"][2]["attrs"]["rename"] = "dot)"
         elif i % 3 == 1:
-            XE["variants"][0]["fields"][0]["attrs"]["docs"] = [" open ( in a doc comment"]
+            XE["variants"][0]["fields"][0]["attrs"]["docs"] = [" open ( in a doc comment\n whose last line ends with a star *"]
             IE["variants"][0]["fields"][0]["attrs"]["docs"] = [" radius :) in mm"]
         else:
             XE["variants"][1]["fields"][0]["attrs"]["rename"] = "b\"("
@@ -73,9 +73,15 @@ def tagged_newtype_programs(ctx):
         outer2 = {"kind": "struct", "name": f"X{i}Outer2", "shape": "named", "attrs": {}, "generics": [],
                   "fields": [{"name": "own", "ty": P("u8"), "attrs": {}}, {"name": "mid", "ty": N(mid["name"]), "attrs": {"flatten": True}}]}
         single = {"kind": "struct", "name": f"X{i}Single", "shape": "named", "attrs": {}, "generics": [], "fields": [{"name": "e", "ty": N(IE["name"]), "attrs": {"flatten": True}}]}
-        items += [mid, outer, outer2, single]
+        # a flattened enum behind a pointer type, next to an own field (the parentheses of the union must survive the wrapper)
+        W2 = lambda w, t: {"k": "wrap", "w": w, "t": t}
+        boxed = {"kind": "struct", "name": f"X{i}Boxed", "shape": "named", "attrs": {}, "generics": [],
+                 "fields": [{"name": "own", "ty": P("u8"), "attrs": {}}, {"name": "e", "ty": W2(["box", "arc", "rc"][i % 3], N(IE["name"])), "attrs": {"flatten": True}}]}
+        boxed2 = {"kind": "struct", "name": f"X{i}Boxed2", "shape": "named", "attrs": {}, "generics": [],
+                  "fields": [{"name": "own", "ty": P("u8"), "attrs": {}}, {"name": "m", "ty": W2("box", N(mid["name"])), "attrs": {"flatten": True}}]}
+        items += [mid, outer, outer2, single, boxed, boxed2]
         imap = {x["name"]: x for x in items}
-        for it_ in (mid, outer, outer2, single):
+        for it_ in (mid, outer, outer2, single, boxed, boxed2):
             probes.append({"ty": N(it_["name"]), "values": g.all_variant_values(N(it_["name"]), imap)})
         progs.append({"items": items, "probes": probes + inner_probes})
     return progs
